@@ -21,6 +21,26 @@ def layout_text(body, newline_every=True, case=None):
     return p, text, pos
 
 
+POISON_BODY = ('i1 = "text"; s1 = 1; b1 = 2.5; r1 = true; w1 = "w"; acc = "a"; x = 1;\n'
+               'select any a_1 from instances of B; select many as_1 from instances of D;\n'
+               'if (true)\n i2 = "t"; s2 = 2; e1 = 3;\n while (true)\n  i3 = false; b2 = "u";\n  zz = nobody_declared_this;\n end while;\nend if;')
+_poison = {}
+
+
+def poison_prebuild():
+    if 'home' not in _poison:
+        fx = Fixture([0] * 20, states=[], texts={'function:f0': POISON_BODY})
+        _poison['fx'] = fx
+        _poison['home'] = fx.m.select_any('S_SYNC', xtuml.where_eq(Name='f0'))
+        _poison['failed'] = 0
+    try:
+        prebuild.prebuild_action(_poison['home'])
+    except Exception:
+        _poison['failed'] += 1
+        return
+    raise AssertionError('the poison action was translated without complaint')
+
+
 class Fixture(object):
     def __init__(self, tape, order=(), texts=None, case=None, states=None):
         """texts: optional {kind:name -> body text} overriding the generated bodies (idempotence round)"""
@@ -93,6 +113,9 @@ class Fixture(object):
             oal.parse('x = 1;\ny = 2;\nif (true)\n z = (3;\n')
         except oal.ParseException:
             pass
+        # ... nor on a translation that was given up half way: an action of ANOTHER model that declares the usual variable
+        # names with unusual types inside nested blocks and then refers to a variable nobody declared
+        poison_prebuild()
         prebuild.prebuild_model(self.m)
 
     def generated_text(self, c):
